@@ -18,7 +18,12 @@ import time
 
 ROOT = os.path.dirname(os.path.abspath(__file__))
 REPO = os.environ.get("VF_REPO", "/repo")
-BUILD = os.path.join(ROOT, "build")
+BUILD = os.environ.get("VF_BUILD", os.path.join(ROOT, "build"))
+# Mutation-testing overrides (tools/mutant.py): never set by the registered commands.
+OUTROOT = os.environ.get("VF_OUT", ROOT)          # where evidence/ and replay/ are written
+EXTRA_OBJS = os.environ.get("VF_EXTRA_OBJS", "").split()   # objects linked before libgstlearn.a (override archive members)
+TAG = os.environ.get("VF_TAG", "")
+SKIP_LIB = os.environ.get("VF_SKIP_LIB_BUILD", "") == "1"
 NCPU = os.cpu_count() or 4
 
 FLAVOURS = {
@@ -30,7 +35,17 @@ FLAVOURS = {
 C_FLAGS = {"rel": "", "asan": "-O1 -g1 -fsanitize=address"}
 
 # property id -> harness description
-CHECKS = json.load(open(os.path.join(ROOT, "checks.json")))
+def load_checks():
+    """checks.d/<ID>.json: one description per property (source, flavour, level, rule, ...)."""
+    d = os.path.join(ROOT, "checks.d")
+    out = {}
+    for f in sorted(os.listdir(d)):
+        if f.endswith(".json"):
+            out[f[:-5]] = json.load(open(os.path.join(d, f)))
+    return out
+
+
+CHECKS = load_checks()
 
 
 def log(*a):
@@ -63,6 +78,8 @@ def libs(fl):
 def build_lib(fl):
     """Incremental build of /repo's working tree (ninja decides from mtimes what to recompile)."""
     d = libdir(fl)
+    if SKIP_LIB:
+        return
     with Lock("lib_" + fl):
         t = time.time()
         if not os.path.exists(os.path.join(d, "build.ninja")):
@@ -95,16 +112,16 @@ def build_harness(pid, fl):
     src = os.path.join(ROOT, "harness", ck["source"])
     bind = os.path.join(BUILD, "bin")
     os.makedirs(bind, exist_ok=True)
-    exe = os.path.join(bind, "%s_%s" % (os.path.splitext(ck["source"])[0], fl))
+    exe = os.path.join(bind, "%s_%s%s" % (os.path.splitext(ck["source"])[0], fl, TAG))
     with Lock("harness_%s_%s" % (pid, fl)):
-        newest = max(os.path.getmtime(p) for p in harness_deps(src) + libs(fl))
+        newest = max(os.path.getmtime(p) for p in harness_deps(src) + libs(fl) + EXTRA_OBJS)
         if os.path.exists(exe) and os.path.getmtime(exe) >= newest:
             return exe
         t = time.time()
         cmd = ["g++", "-std=c++20", "-fopenmp", "-fno-access-control", "-w", "-DGSTLEARN_VERIF",
                "-I" + os.path.join(REPO, "include"), "-I" + libdir(fl), "-I/usr/include/eigen3",
                "-I" + os.path.join(REPO, "3rd-party", "csparse"), "-I" + os.path.join(REPO, "3rd-party", "gmtsph"),
-               "-I" + os.path.join(ROOT, "harness")] + FLAVOURS[fl][1] + [src, "-o", exe + ".tmp"] + libs(fl) + ["-lnlopt"]
+               "-I" + os.path.join(ROOT, "harness")] + FLAVOURS[fl][1] + [src, "-o", exe + ".tmp"] + EXTRA_OBJS + libs(fl) + ["-lnlopt"]
         r = subprocess.run(cmd, stdout=subprocess.PIPE, stderr=subprocess.STDOUT, text=True)
         if r.returncode != 0:
             log(r.stdout[-8000:])
@@ -117,8 +134,10 @@ def build_harness(pid, fl):
 
 def read_known():
     known, fixed = [], []
-    p = os.path.join(ROOT, "known_findings.txt")
-    if os.path.exists(p):
+    files = [os.path.join(ROOT, "known_findings.txt")]
+    for p in files:
+        if not os.path.exists(p):
+            continue
         for line in open(p):
             line = line.strip()
             m = re.match(r"known:\s+property=(\S+)\s+key=(\S+)\s*(.*)", line)
@@ -157,21 +176,23 @@ def run_check(pid, tier):
     exe = build_harness(pid, fl)
     nsh = int(os.environ.get("VF_SHARDS", ck.get("shards", NCPU)))
     deadline = float(os.environ.get("VF_DEADLINE", ck.get("deadline", {}).get(tier, 600 if tier == "quick" else 2400)))
-    outd = os.path.join(BUILD, "out", pid + "_" + tier)
+    outd = os.path.join(BUILD, "out", pid + "_" + tier + TAG)
     shutil.rmtree(outd, ignore_errors=True)
     os.makedirs(outd)
-    os.makedirs(os.path.join(BUILD, "scratch"), exist_ok=True)
+    scratch = os.path.join(BUILD, "scratch", pid + "_" + tier + TAG)
+    shutil.rmtree(scratch, ignore_errors=True)
+    os.makedirs(scratch, exist_ok=True)
     env = dict(os.environ)
     env["OMP_NUM_THREADS"] = "1"
     env["ASAN_OPTIONS"] = env.get("ASAN_OPTIONS", "detect_leaks=0:abort_on_error=1:allocator_may_return_null=1:max_allocation_size_mb=2048:handle_abort=0:handle_segv=0")
-    env["VF_SCRATCH"] = os.path.join(BUILD, "scratch")
+    env["VF_SCRATCH"] = scratch
     env["VF_ROOT"] = ROOT
     procs = []
     for i in range(nsh):
         out = os.path.join(outd, "frag_%d.json" % i)
         cmd = [exe, "--tier", tier, "--shard", str(i), "--nshards", str(nsh), "--out", out, "--deadline", str(deadline)]
         lf = open(os.path.join(outd, "log_%d.txt" % i), "w")
-        procs.append((i, out, subprocess.Popen(cmd, stdout=lf, stderr=subprocess.STDOUT, env=env, cwd=os.path.join(BUILD, "scratch")), lf))
+        procs.append((i, out, subprocess.Popen(cmd, stdout=lf, stderr=subprocess.STDOUT, env=env, cwd=scratch), lf))
     frags, broken = [], []
     hard = deadline * 1.5 + 120
     for i, out, p, lf in procs:
@@ -195,10 +216,11 @@ def run_check(pid, tier):
             broken.append("shard %d exit status %s" % (i, rc))
         frags.append((i, out, fr))
 
+    shutil.rmtree(scratch, ignore_errors=True)
     # merge -----------------------------------------------------------------------------------
     parts, histo, samples, notes = {}, {}, [], []
     viol, vcount = [], {}
-    sigs = set()
+    sigs, skeys = set(), set()
     import array
     for i, out, fr in frags:
         for n, p in fr["parts"].items():
@@ -227,6 +249,11 @@ def run_check(pid, tier):
             a = array.array("Q")
             a.frombytes(open(sf, "rb").read())
             sigs.update(a)
+        sf = out + ".states"
+        if os.path.exists(sf):
+            a = array.array("Q")
+            a.frombytes(open(sf, "rb").read())
+            skeys.update(a)
     # distinct counts per part cannot be split from the union; report the union and per-part sums
     for i, out, fr in frags:
         for n, p in fr["parts"].items():
@@ -235,7 +262,7 @@ def run_check(pid, tier):
     known, fixed = read_known()
     known_keys = {(p, k): w for p, k, w in known}
     lines, nviol, nknown = [], 0, 0
-    rdir = os.path.join(ROOT, "replay", pid)
+    rdir = os.path.join(OUTROOT, "replay", pid)
     shutil.rmtree(rdir, ignore_errors=True)
     seen_key = {}
     for v in viol:
@@ -266,13 +293,14 @@ def run_check(pid, tier):
                skipped=sum(p["skipped"] for p in parts.values()), notes=sorted(set(notes))[:40],
                known_findings_reported=nknown, violation_keys={k: c for k, c in vcount.items()})
     if level == "model_checking":
-        cov["states"] = sum(p["states"] for p in parts.values())
+        cov["states"] = len(skeys) if skeys else sum(p["states"] for p in parts.values())
+        cov["states_rule"] = "distinct canonical state keys over all shards" if skeys else "sum of per-part state counts"
         cov["transitions"] = sum(p["transitions"] for p in parts.values())
         cov["traces_validated_against_impl"] = sum(p["traces"] for p in parts.values())
     ev = dict(property_id=pid, tier=tier, seed=seed, level=level, coverage=cov, assumptions=ck.get("assumptions", []),
               wall_s=round(time.time() - t0, 2), violations=nviol)
-    os.makedirs(os.path.join(ROOT, "evidence"), exist_ok=True)
-    evp = os.path.join(ROOT, "evidence", pid + ".json")
+    os.makedirs(os.path.join(OUTROOT, "evidence"), exist_ok=True)
+    evp = os.path.join(OUTROOT, "evidence", pid + ".json")
     json.dump(ev, open(evp + ".tmp", "w"), indent=1)
     os.replace(evp + ".tmp", evp)
 
@@ -310,7 +338,7 @@ def replay(path):
     exe = build_harness(pid, fl)
     env = dict(os.environ)
     env["OMP_NUM_THREADS"] = "1"
-    env["VF_SCRATCH"] = os.path.join(BUILD, "scratch")
+    env["VF_SCRATCH"] = os.path.join(BUILD, "scratch", "replay_%d" % os.getpid())
     env["VF_ROOT"] = ROOT
     env.setdefault("ASAN_OPTIONS", "detect_leaks=0")
     os.makedirs(env["VF_SCRATCH"], exist_ok=True)
